@@ -389,7 +389,9 @@ def scorer_cases(draw, tier):
     # bulk data last (see strategies/data.py)
     X = draw(D.exact_matrix(n, p, dyadic=False)) if integral else draw(D.generic_matrix(n, p))
     if isinstance(large, float):
-        X = [[(v + 10) * large for v in row] for row in X]  # positive counts of order 1e8..5e9
+        # positive counts of order 1e8..5e9; the row-dependent remainder (0..370) makes them need more than 24 significant bits
+        # (multiples of 1e8 alone fit single precision exactly)
+        X = [[(v + 10) * large + 37.0 * ((7 * i + 3 * j) % 11) for j, v in enumerate(row)] for i, row in enumerate(X)]
     elif large == "full_range_int16":
         X = [[max(-32768.0, min(32767.0, v * 4000.0)) for v in row] for row in X]  # rail to rail readings of a 16-bit converter
     elif large:
@@ -416,7 +418,10 @@ def check_scorer(case):
     check_caller_index(obj, case["repr"], len(X), "scorer.fit")
     Xa = np.asarray(X, dtype=float)
     magnitude = K.score_magnitude(case["scorer"], Xa, len(Xa))  # rounding of prefix sums is relative to this
-    if want.shape != got.shape or not np.allclose(want, got, rtol=1e-9, atol=1e-9 * (1 + np.abs(want).max() + magnitude)):
+    # (the two runs do the same float64 arithmetic on the same numbers - apart from the memory layout of the container, which
+    # changes the last bits of matrix products: 1e-11 of the cost terms' magnitude is > 1000 x the prefix-sum rounding bound
+    # for n <= 30 and 100 x below what single-precision data would cause)
+    if want.shape != got.shape or not np.allclose(want, got, rtol=1e-9, atol=1e-9 * (1 + np.abs(want).max()) + 1e-11 * magnitude):
         raise Violation("scorer output depends on how the same numbers are passed in", scorer=case["scorer"],
                         repr=case["repr"], canonical=want.tolist(), got=got.tolist())
     r = case["repr"]
